@@ -422,8 +422,7 @@ func isSkippableForNamespaceTranslation(vAny any) (result bool) {
 				}
 			}
 			// Events with a namespace field should not skip translation.
-			_, skippable := namespaceTranslationSkippableHistoryEvents[evt.GetEventType()]
-			if !skippable {
+			if !isSkippableHistoryEvent(evt) {
 				return false
 			}
 		}
@@ -437,9 +436,25 @@ func isSkippableForNamespaceTranslation(vAny any) (result bool) {
 			}
 		}
 		// Events with a namespace field should not skip translation.
-		_, skippable := namespaceTranslationSkippableHistoryEvents[v.GetEventType()]
-		return skippable
+		return isSkippableHistoryEvent(v)
 	}
 
 	return false
+}
+
+// isSkippableHistoryEvent reports whether the event's kind is on the skip list. event_type and the attributes oneof are
+// independent on the wire, so the declared type counts only when the attributes really are of that kind: an event that
+// claims a skip-listed type but carries other attributes (which may name a namespace) is visited like any other.
+func isSkippableHistoryEvent(evt *history.HistoryEvent) bool {
+	if _, skippable := namespaceTranslationSkippableHistoryEvents[evt.GetEventType()]; !skippable {
+		return false
+	}
+	if evt.Attributes == nil {
+		return true
+	}
+	t := reflect.TypeOf(evt.Attributes)
+	if t.Kind() == reflect.Ptr {
+		t = t.Elem()
+	}
+	return t.Name() == "HistoryEvent_"+evt.GetEventType().String()+"EventAttributes"
 }
